@@ -45,7 +45,7 @@ def gen_case(seed: int, prop: str, tier: str) -> dict:
         sub["fault"] = None
         case["sub"] = sub
     elif kind == "vmtar":
-        case["how"] = rng.choice(["name", "fileobj", "name_gz_flag"])
+        case["how"] = rng.choice(["name", "fileobj", "name_gz_flag", "name_after_own_write", "fileobj_after_own_write"])
         from hvsim.writers import vmtar as WT
 
         case["arch"] = WT.gen_cfg(rng, tier) if rng.random() < 0.7 else None
@@ -54,7 +54,7 @@ def gen_case(seed: int, prop: str, tier: str) -> dict:
         case["output_exists"] = rng.random() < 0.3
         # how the CLI is invoked: the documented form, or with the output option left out / other spellings
         # one in six envelope workloads decrypts a synthetic envelope of 4..33 MiB instead of the 100 KiB sample
-        case["big_env"] = rng.randrange(14) if rng.random() < 0.17 else None
+        case["big_env"] = rng.randrange(14 + 7) if rng.random() < 0.2 else None  # 14.. : small payload, header of more than one block
         case["argv"] = rng.choice(["full", "full", "full", "no_output", "no_keystore", "only_envelope", "long_opts", "envelope_no_ext",
                                     "output_dir", "output_dir_no_ext"])
     elif kind == "hyperv":
@@ -273,9 +273,20 @@ def run_case(case: dict) -> RunResult:
             def w_tar():
                 from dissect.hypervisor.util import vmtar
 
-                if case["how"] == "fileobj":
+                if case["how"].endswith("_after_own_write"):
+                    # the caller first writes an archive of their own, to a file they name, through the same module (it passes
+                    # every tarfile mode through); opening the evidence afterwards is still a read
+                    out = d + "/out/report.tar"
+                    world.fs.mkdir(d + "/out")
+                    world.fs.declared_outputs.add(out)
+                    try:
+                        t0 = vmtar.open(out, mode="w")
+                        t0.close()
+                    except Exception:
+                        pass
+                if case["how"].startswith("fileobj"):
                     t = vmtar.open(fileobj=H(d + "/test.vgz"))
-                elif case["how"] == "name" or not gz_ok:
+                elif case["how"].startswith("name") and (case["how"] != "name_gz_flag" or not gz_ok):
                     t = vmtar.open(d + "/test.vgz")
                 else:
                     t = vmtar.open(d + "/test.vgz", "r:gz")
@@ -288,7 +299,8 @@ def run_case(case: dict) -> RunResult:
             if case.get("big_env") is not None:
                 from hvsim.engines import cryptosim
 
-                ecfg = cryptosim.env_cfg(case["seed"] % 1000, cryptosim.BIG_K + 2 + case["big_env"])
+                j = case["big_env"]
+                ecfg = cryptosim.env_cfg(case["seed"] % 1000, cryptosim.BIG_K + 2 + j if j < 14 else cryptosim.FILL_K + (j - 14))
                 ecfg["aad"] = "ESXConfiguration"
                 blob, _, _, _, _, ks_text, _ = cryptosim.build_env(ecfg)
                 ef, kf = SimFile(), SimFile()
@@ -441,7 +453,7 @@ def run_case(case: dict) -> RunResult:
     if book.items:
         res.probes["monitor.bytesio_handle"] = 1
     if case.get("big_env") is not None:
-        res.probes["monitor.envelope_synthetic_4_to_33_MiB"] = 1
+        res.probes["monitor.envelope_synthetic_4_to_33_MiB" if case["big_env"] < 14 else "monitor.envelope_header_at_block_boundary"] = 1
     if kind == "vmtar" and case.get("arch"):
         a = case["arch"]
         res.probes["monitor.vmtar_synthetic_" + a["wrap"] + ("_visor" if a["visor"] else "_plain")] = 1
